@@ -289,6 +289,18 @@ def gen_td(r, tbl, depth, probe):
     return d
 
 
+def nullable_spec(t) -> bool:
+    """the serializer's notion of a nullable field type (only those get the `is not None` test under
+    omit_none): Any, None, Optional / Union with a direct None member -- not Literal[None]"""
+    while t[0] == "newtype":
+        t = t[1]
+    if t[0] in ("any", "none", "opt"):
+        return True
+    if t[0] == "union":
+        return any(m[0] in ("none", "any", "opt") or (m[0] == "union" and nullable_spec(m)) for m in t[1])
+    return False
+
+
 def has_reset_collection(t, tbl, seen=None) -> bool:
     """does the type tree (through named tuples / typed dicts, not through dataclasses) contain a
     list / set / mapping constructor"""
